@@ -159,6 +159,11 @@ def main(tier):
     # get_reusable_executor re-entered from done-callbacks / racing with callbacks that submit
     plan += [(PG.reuse_in_callback(2, 3), 1, PT), (PG.reuse_in_callback(3, 1), 0, PT),
              (PG.reuse_in_callback(2, 2), 1, PT), (PG.resize_vs_callback_submit(1, 3), 1, PT)]
+    # the reused-and-resized executor really runs the requested number of tasks at once
+    plan += [(PG.saturate_resize(1, 4), 0, PT), (PG.saturate_resize(1, 3), 1, PT),
+             (PG.saturate_resize(2, 4), 0, PT), (PG.saturate_resize(3, 1), 0, PT),
+             (PG.saturate_resize(2, 3, 0.05), 0, PT)]
+    plan += [(PG.reuse_true_after_drain(3), 1, dict(kinds=("T",)))]
     # source-line granularity: the decision logic of get_reusable_executor under one preemption
     # at any line
     plan += simcheck.line_plan([racing_from("cold", [dict(max_workers=2), dict(max_workers=2)]),
